@@ -349,6 +349,9 @@ func (tr *gtTr) stmt(s ast.Stmt, env *venv, next cont) gnode {
 			if why, ok := tr.diverges(c, env); ok {
 				return &nPanic{why: why}
 			}
+			if n, ok := tr.bufferStmt(c, env, next); ok {
+				return n
+			}
 			if n, ok := tr.mutCall(c, nil, false, env, next); ok {
 				return n
 			}
